@@ -486,7 +486,9 @@ func (f *Frame) loopCut(li *loopInfo, cur *State) {
 			}
 			continue
 		}
-		if s, ok := un.heapSort[k]; ok {
+		if un.eng.immutable[k] {
+			un.havocFresh(cur, k)
+		} else if s, ok := un.heapSort[k]; ok {
 			cur.H[k] = un.freshHeap(cur, k, s)
 		} else if s, ok := un.eng.heapSortHint[k]; ok {
 			un.heapInit(k, s)
